@@ -73,6 +73,22 @@ class Unit:
         raw = []
         with open(self.path) as f:
             lines = f.read().split("\n")
+        # `//@ include <file>`: the file's lines (raw text and directives alike) are spliced in place, recursively
+        def expand(ls, depth=0):
+            out_ = []
+            for l in ls:
+                st_ = l.strip()
+                if st_.startswith("//@") and st_[3:].strip().startswith("include "):
+                    inc = os.path.join(os.path.dirname(self.path), st_[3:].strip()[len("include "):].strip())
+                    if depth > 8:
+                        raise UnitError("include nesting too deep: %s" % inc)
+                    with open(inc) as f2:
+                        out_.append("// vx-include %s" % os.path.basename(inc))
+                        out_ += expand(f2.read().split("\n"), depth + 1)
+                    continue
+                out_.append(l)
+            return out_
+        lines = expand(lines)
         for ln, line in enumerate(lines, 1):
             s = line.strip()
             if not s.startswith("//@"):
